@@ -21,9 +21,10 @@ VARIABLES tid, l,
           callStart, \* executed steps at the latest inner_call (multi-task schedulers)
           iters,     \* number of gradient iterations started so far (buffer sample events)
           seg,       \* open learning segment: [open, changed, stepIdx, iter]
+          dirty,     \* targets whose online counterpart (cfg.pairs) changed since the target last changed
           viol       \* set of <<position, clause>>
 
-vars == <<tid, l, phase, lastObs, queue, autoq, pend, executed, epsDone, updates, prevEv, callStart, iters, seg, viol>>
+vars == <<tid, l, phase, lastObs, queue, autoq, pend, executed, epsDone, updates, prevEv, callStart, iters, seg, dirty, viol>>
 
 T == Traces[tid]
 C == T.cfg
@@ -38,7 +39,7 @@ Init == /\ tid \in 1..Len(Traces) /\ l = 1
         /\ autoq = [e \in 0..(Traces[tid].cfg.nenvs - 1) |-> <<>>]
         /\ pend = [e \in 0..(Traces[tid].cfg.nenvs - 1) |-> [src |-> "none", act |-> "none"]]
         /\ executed = 0 /\ epsDone = 0 /\ updates = 0 /\ prevEv = "none" /\ viol = {}
-        /\ callStart = 0 /\ iters = 0 /\ seg = [open |-> FALSE, changed |-> {}, stepIdx |-> 0, iter |-> 0]
+        /\ dirty = {} /\ callStart = 0 /\ iters = 0 /\ seg = [open |-> FALSE, changed |-> {}, stepIdx |-> 0, iter |-> 0]
 
 Fail(clauses) == viol' = viol \cup {<<l, c>> : c \in clauses}
 SetOf(s) == {s[i] : i \in 1..Len(s)}
@@ -61,10 +62,15 @@ RuleDue(r, stepIdx, it, sampled) ==
        [] OTHER -> FALSE
 DueComps(stepIdx, it, sampled) == UNION {SetOf(C.rules[i].comps) : i \in {j \in 1..Len(C.rules) : RuleDue(C.rules[j], stepIdx, it, sampled)}}
 Ruled == UNION {SetOf(C.rules[i].comps) : i \in 1..Len(C.rules)}
+Paired == {C.pairs[i][1] : i \in 1..Len(C.pairs)}
+OnlineOf(t) == {C.pairs[i][2] : i \in {j \in 1..Len(C.pairs) : C.pairs[j][1] = t}}
+(* a copy of unchanged content is invisible to content digests: a due target update is only required to
+   show when the target's online counterpart changed since the target last changed *)
+MustShow(changed) == {t \in SetOf(C.targets) : t \notin Paired \/ t \in dirty \/ OnlineOf(t) \cap changed # {}}
 SegClauses(changed, stepIdx, it, sampled) ==
   LET due == DueComps(stepIdx, it, sampled) IN
     (IF (changed \cap Ruled \cap SetOf(C.targets)) \ due # {} THEN {"TargetsOnlyAtUpdatePoints"} ELSE {})
-    \cup (IF ((due \cap SetOf(C.targets)) \ changed) # {} THEN {"TargetUpdateMissing"} ELSE {})
+    \cup (IF ((due \cap MustShow(changed)) \ changed) # {} THEN {"TargetUpdateMissing"} ELSE {})
     \cup (IF ((changed \cap Ruled) \ SetOf(C.targets)) \ due # {} THEN {"TrainedOnlyWhenDue"} ELSE {})
     \cup (IF ((due \ SetOf(C.targets)) \ changed) # {} THEN {"UpdateMissing"} ELSE {})
 (* closing: the closing event's own changes still belong to the segment *)
@@ -96,6 +102,7 @@ Bump == /\ l' = l + 1 /\ prevEv' = E.ev /\ UNCHANGED tid
         /\ updates' = IF Changed \cap SetOf(C.trained) # {} THEN updates + 1 ELSE updates
         /\ iters' = IF E.ev = "sample" THEN iters + 1 ELSE iters
         /\ callStart' = IF E.ev = "inner_call" THEN executed ELSE callStart
+        /\ dirty' = (dirty \cup {t \in Paired : OnlineOf(t) \cap Changed # {}}) \ (Changed \cap SetOf(C.targets))
         /\ seg' = IF E.ev = Opener
                   THEN [open |-> TRUE, changed |-> {}, iter |-> IF Opener = "sample" THEN iters + 1 ELSE iters,
                         stepIdx |-> IF E.ev = "step" THEN LatestStepIndex + 1 ELSE LatestStepIndex]
